@@ -495,6 +495,8 @@ struct WExp {
     w: L,
     pb: L,
     pt: L,
+    /// entry demoted from protected into the window: its position inside the window is not specified
+    demoted_into_window: Option<Ent>,
 }
 
 fn wtlfu_spec(cfg: &Cfg, pre: &Snap, probe: &Probe, op: Op, c: &mut Counters) -> Option<WExp> {
@@ -512,35 +514,35 @@ fn wtlfu_spec(cfg: &Cfg, pre: &Snap, probe: &Probe, op: Op, c: &mut Counters) ->
                 if pt.len() >= ct {
                     bump(c, "wtlfu.put.window_hit.protected_full");
                     let d = *pt.last().unwrap();
-                    WExp { w: front(d, &w1), pb: pb.clone(), pt: front(v, &drop_last(pt)) }
+                    WExp { w: front(d, &w1), pb: pb.clone(), pt: front(v, &drop_last(pt)), demoted_into_window: Some(d) }
                 } else {
                     bump(c, "wtlfu.put.window_hit.protected_room");
-                    WExp { w: w1, pb: pb.clone(), pt: front(v, pt) }
+                    WExp { w: w1, pb: pb.clone(), pt: front(v, pt), demoted_into_window: None }
                 }
             } else if has(pb, k) || has(pt, k) {
                 bump(c, "wtlfu.put.main_hit");
                 let (a, b) = slru_put(pb, pt, cb, ct, k, v.1, c);
-                WExp { w: w.clone(), pb: a, pt: b }
+                WExp { w: w.clone(), pb: a, pt: b, demoted_into_window: None }
             } else if w.len() < cw {
                 bump(c, "wtlfu.put.new.window_room");
-                WExp { w: front(v, w), pb: pb.clone(), pt: pt.clone() }
+                WExp { w: front(v, w), pb: pb.clone(), pt: pt.clone(), demoted_into_window: None }
             } else {
                 let cand = *w.last().unwrap();
                 let w2 = front(v, &drop_last(w));
                 if pb.len() + pt.len() < cb + ct {
                     bump(c, "wtlfu.put.new.candidate_admitted_freely");
                     let (a, b) = slru_put(pb, pt, cb, ct, cand.0, cand.1, c);
-                    WExp { w: w2, pb: a, pt: b }
+                    WExp { w: w2, pb: a, pt: b, demoted_into_window: None }
                 } else {
                     let victim = *pb.last().unwrap();
                     let ec = probe.estimates[cand.0 as usize];
                     let ev = probe.estimates[victim.0 as usize];
                     if ec < ev {
                         bump(c, "wtlfu.put.new.candidate_rejected");
-                        WExp { w: w2, pb: pb.clone(), pt: pt.clone() }
+                        WExp { w: w2, pb: pb.clone(), pt: pt.clone(), demoted_into_window: None }
                     } else {
                         bump(c, if ec == ev { "wtlfu.put.new.candidate_replaces_victim.tie" } else { "wtlfu.put.new.candidate_replaces_victim.higher" });
-                        WExp { w: w2, pb: front(cand, &drop_last(pb)), pt: pt.clone() }
+                        WExp { w: w2, pb: front(cand, &drop_last(pb)), pt: pt.clone(), demoted_into_window: None }
                     }
                 }
             }
@@ -550,7 +552,7 @@ fn wtlfu_spec(cfg: &Cfg, pre: &Snap, probe: &Probe, op: Op, c: &mut Counters) ->
             let fl = |l: L| if wr { flip_key(&l, k) } else { l };
             if let Some(v) = val(w, k) {
                 bump(c, "wtlfu.get.window_hit");
-                WExp { w: fl(front((k, v), &without(w, k))), pb: pb.clone(), pt: pt.clone() }
+                WExp { w: fl(front((k, v), &without(w, k))), pb: pb.clone(), pt: pt.clone(), demoted_into_window: None }
             } else {
                 if has(pb, k) || has(pt, k) {
                     bump(c, "wtlfu.get.main_hit");
@@ -558,13 +560,13 @@ fn wtlfu_spec(cfg: &Cfg, pre: &Snap, probe: &Probe, op: Op, c: &mut Counters) ->
                     bump(c, "wtlfu.get.miss");
                 }
                 let (a, b) = slru_get(pb, pt, ct, k, c);
-                WExp { w: w.clone(), pb: fl(a), pt: fl(b) }
+                WExp { w: w.clone(), pb: fl(a), pt: fl(b), demoted_into_window: None }
             }
         }
-        Op::PeekMutW(k) => WExp { w: flip_key(w, k), pb: flip_key(pb, k), pt: flip_key(pt, k) },
-        Op::Remove(k) => WExp { w: without(w, k), pb: without(pb, k), pt: without(pt, k) },
-        Op::Purge => WExp { w: vec![], pb: vec![], pt: vec![] },
-        Op::CloneReplace => WExp { w: w.clone(), pb: pb.clone(), pt: pt.clone() },
+        Op::PeekMutW(k) => WExp { w: flip_key(w, k), pb: flip_key(pb, k), pt: flip_key(pt, k), demoted_into_window: None },
+        Op::Remove(k) => WExp { w: without(w, k), pb: without(pb, k), pt: without(pt, k), demoted_into_window: None },
+        Op::Purge => WExp { w: vec![], pb: vec![], pt: vec![], demoted_into_window: None },
+        Op::CloneReplace => WExp { w: w.clone(), pb: pb.clone(), pt: pt.clone(), demoted_into_window: None },
         _ => return None,
     })
 }
@@ -1128,7 +1130,17 @@ pub fn check_trans(cfg: &Cfg, pre: &Snap, probe: &Probe, op: Op, t: &TransRes, e
                     if let Ret::Num(_) = ret {
                         // resize: leaving order is LRU first
                     }
-                    std::mem::take(&mut left) == t.cb_log
+                    if op == Op::Purge {
+                        // the order in which purge lets the entries go is not specified (only resize is said to
+                        // discard the least-recent entries first): each departed entry exactly once, any order
+                        let mut a = std::mem::take(&mut left);
+                        let mut b = t.cb_log.clone();
+                        a.sort();
+                        b.sort();
+                        a == b
+                    } else {
+                        std::mem::take(&mut left) == t.cb_log
+                    }
                 };
                 bump(c, &format!("callback.calls_{}", t.cb_log.len().min(3)));
                 if !ok {
@@ -1199,7 +1211,12 @@ pub fn check_trans(cfg: &Cfg, pre: &Snap, probe: &Probe, op: Op, t: &TransRes, e
         }
         Kind::Wtlfu => {
             if let Some(e) = wtlfu_spec(cfg, pre, probe, op, c) {
-                if post.lists[0] != e.w || post.lists[1] != e.pb || post.lists[2] != e.pt {
+                let window_ok = match e.demoted_into_window {
+                    None => post.lists[0] == e.w,
+                    // same entries, the others in unchanged relative order, the demoted one anywhere
+                    Some(d) => has(&post.lists[0], d.0) && without(&post.lists[0], d.0) == without(&e.w, d.0) && val(&post.lists[0], d.0) == Some(d.1),
+                };
+                if !window_ok || post.lists[1] != e.pb || post.lists[2] != e.pt {
                     out.push(Finding::new(
                         if op == Op::CloneReplace { "C16" } else { "C10" },
                         "wtinylfu_relation",
